@@ -45,7 +45,13 @@ func TestVerifAPIRows(t *testing.T) {
 		}
 		n++
 		exec := func(p *regprocessor.RegProcessor, wire []byte, clientAddr net.IP) (*pb.RegistrationResponse, error) {
-			s := &APIRegServer{processor: p, logger: log.NewEntry(lg), metrics: mt, latestClientConf: &pb.ClientConf{Generation: proto.Uint32(1)}}
+			// the client's ClientConf generation is 1; an outdated client (row.Req.Outdated) faces a registrar at generation 2 and
+			// must be handed that ClientConf IN ADDITION to exactly what the stations are told
+			sgen := uint32(1)
+			if row.Req.Outdated {
+				sgen = 2
+			}
+			s := &APIRegServer{processor: p, logger: log.NewEntry(lg), metrics: mt, latestClientConf: &pb.ClientConf{Generation: proto.Uint32(sgen)}}
 			r := httptest.NewRequest("POST", "/register-bidirectional", bytes.NewReader(wire))
 			r.RemoteAddr = net.JoinHostPort(clientAddr.String(), "40123")
 			w := httptest.NewRecorder()
@@ -56,6 +62,10 @@ func TestVerifAPIRows(t *testing.T) {
 			resp := &pb.RegistrationResponse{}
 			if err := proto.Unmarshal(w.Body.Bytes(), resp); err != nil {
 				return nil, fmt.Errorf("response body does not decode: %w", err)
+			}
+			if (resp.GetClientConf() != nil) != row.Req.Outdated || (row.Req.Outdated && resp.GetClientConf().GetGeneration() != 2) {
+				return nil, fmt.Errorf("ClientConf attached: %v (generation %d), client outdated: %v", resp.GetClientConf() != nil,
+					resp.GetClientConf().GetGeneration(), row.Req.Outdated)
 			}
 			return resp, nil
 		}
